@@ -303,14 +303,32 @@ func (h *handler) processUnaryRpc(
 	md *grpc.MethodDesc,
 	rpc *goatorepo.Rpc,
 ) *goatorepo.Rpc {
+	fullMethod := fmt.Sprintf("/%s/%s", info.name, md.MethodName)
+
 	ctx, cancel, err := contextFromHeaders(clientCtx, rpc.GetHeader())
-	if err != nil {
-		log.Panic().Err(err).Msg("Server: failed to get context from headers")
-	}
 	defer cancel()
+	if err != nil {
+		log.Warn().Err(err).Msg("Server: failed to get context from headers")
+		respHeader := &goatorepo.RequestHeader{
+			Method:      fullMethod,
+			Source:      rpc.Header.Destination,
+			Destination: rpc.Header.Source,
+		}
+		if len(rpc.Header.ProxyRecord) > 1 {
+			respHeader.ProxyNext = rpc.Header.ProxyRecord[0 : len(rpc.Header.ProxyRecord)-1]
+		}
+		return &goatorepo.Rpc{
+			Id:     rpc.GetId(),
+			Header: respHeader,
+			Status: &goatorepo.ResponseStatus{
+				Code:    int32(codes.Internal),
+				Message: "malformed request metadata: " + err.Error(),
+			},
+			Trailer: &goatorepo.Trailer{},
+		}
+	}
 
 	var appErr error
-	fullMethod := fmt.Sprintf("/%s/%s", info.name, md.MethodName)
 
 	beginTime := time.Now()
 	ctx = internal.StatsStartServerRPC(h.srv.statsHandlers, false, beginTime, fullMethod, false, false, ctx)
